@@ -7,6 +7,7 @@ import (
 	"crypto"
 	_ "crypto/sha256"
 	"errors"
+	"net/url"
 
 	"github.com/sassoftware/relic/v8/config"
 	"github.com/sassoftware/relic/v8/lib/pkcs7"
@@ -30,7 +31,9 @@ func (c *vhCtx) Err() error {
 // stub whose outcome per call is arbitrary: the result is the token of the
 // first authority, in configured order, that yields one; no authority is
 // contacted after a success; if every authority fails the operation fails
-// (never "no error, no token"); a cancelled caller stops the scan.
+// (never "no error, no token"); a cancelled caller stops the scan, but an
+// authority's own time-out (deadline error while the caller is still waiting)
+// does not.
 func VH_C10_Failover() {
 	// vh:stubbed
 	nurls := vhConcretize(vhInt("configured-urls", 0, 3), 4)
@@ -47,15 +50,20 @@ func VH_C10_Failover() {
 	ctx := &vhCtx{Context: context.Background()}
 	var contacted []string
 	tokens := map[string]*pkcs7.ContentInfoSignedData{}
-	vhStub("(github.com/sassoftware/relic/v8/lib/pkcs9/tsclient.tsClient).do", func(c tsClient, cx context.Context, url string, req *pkcs9.Request, imprint []byte) (*pkcs7.ContentInfoSignedData, error) {
-		contacted = append(contacted, url)
+	vhStub("(github.com/sassoftware/relic/v8/lib/pkcs9/tsclient.tsClient).do", func(c tsClient, cx context.Context, u string, req *pkcs9.Request, imprint []byte) (*pkcs7.ContentInfoSignedData, error) {
+		contacted = append(contacted, u)
 		if vhBool("caller-cancels-during-this-exchange") {
 			ctx.cancelled = true
 		}
 		if vhBool("authority-yields-a-token") {
 			t := new(pkcs7.ContentInfoSignedData)
-			tokens[url] = t
+			tokens[u] = t
 			return t, nil
+		}
+		// an authority that hangs until the per-request timeout fires fails
+		// with a deadline error although the caller is still waiting
+		if vhBool("authority-times-out") {
+			return nil, &url.Error{Op: "Post", URL: u, Err: context.DeadlineExceeded}
 		}
 		return nil, errors.New("exchange failed")
 	})
